@@ -23,6 +23,7 @@ PAYLOADS = [
     ('comment-end', MARK + ' */ fn injected() {} /*'),
     ('braces', MARK + '{}}{'),
     ('unicode', MARK + '\u00e9\u65e5'),
+    ('padded', '  ' + MARK + ' \t'),              # leading / trailing white space is part of the text
     ('non-xid', MARK + '\u00b2\u24b6'),          # alphanumeric for char::is_alphanumeric, but not XID_Continue: illegal in an identifier
 ]
 BENIGN = 'plainvalue'
@@ -96,13 +97,23 @@ def _unescape(lit: str) -> str:
     return ''.join(out)
 
 
+import json as _json
+_KW = _json.load(open(os.path.join(os.path.dirname(os.path.dirname(os.path.dirname(os.path.abspath(__file__)))), 'contracts', 'keywords.json')))
+KEYWORDS = set(_KW['strict'] + _KW['reserved'])
+KEYWORD_PAYLOADS = ['type', 'self', 'Self', 'fn', 'crate', 'super', 'async', 'match', 'mod', 'struct', 'impl', 'where', 'move', 'dyn', 'abstract', 'yield', 'try', 'gen']
+
+
 def _skeleton(toks) -> List[str]:
-    """token kinds and punctuation, with identifiers / literals / comments abstracted: what the compiler sees as structure"""
+    """token kinds and punctuation, with identifiers / literals / comments abstracted: what the compiler sees as structure.
+    Keywords are kept as themselves: a name that reaches the output as a keyword token changes the structure."""
     out = []
     for t in toks:
         if t.kind in ('ws', 'comment', 'doc'):
             continue
-        out.append(t.text if t.kind == 'punct' else t.kind)
+        if t.kind == 'ident' and t.text in KEYWORDS:
+            out.append(t.text)
+        else:
+            out.append(t.text if t.kind == 'punct' else t.kind)
     return out
 
 
@@ -155,7 +166,8 @@ def _search(repo, positions=None) -> dict:
     cases: List[Tuple[str, str, str, str]] = []     # (position, payload name, payload, path)
     n = 0
     for pos in (positions or POSITIONS):
-        for pname, payload in [('benign', BENIGN + 'x')] + PAYLOADS:
+        kw = [('keyword-' + k, k) for k in KEYWORD_PAYLOADS] if pos in NAME_POS else []
+        for pname, payload in [('benign', BENIGN + 'x')] + PAYLOADS + kw:
             if pos in URL_POS:
                 # these positions must parse as a URL to be accepted at all; the payload sits in the path, the query or the fragment
                 # (the URL parser treats them differently: a backslash survives in query and fragment)
@@ -184,6 +196,9 @@ def _search(repo, positions=None) -> dict:
         if g['status'] == 'PANIC':
             res['anomalies'].append({'position': pos, 'payload': pname, 'value': payload, 'problems': ['the generator panicked'], 'kind': 'panic'})
             continue
+        if g['status'] == 'MISSING':
+            res['error'] = 'the generation harness produced no result (compile error / crash): ' + g.get('msg', '')[-300:]
+            continue
         if g['status'] != 'OK':
             res['rejected_by_generator'] += 1      # an error is a legitimate answer: nothing was emitted
             continue
@@ -191,11 +206,15 @@ def _search(repo, positions=None) -> dict:
         expect = payload
         # a URL is normalised by the URL parser (percent-encoding, stripped line breaks): the literal need not spell the original text
         probs = analyse(text, expect if pos not in URL_POS else MARK, benign.get(pos), names_become_identifiers=pos in NAME_POS)
+        if pname.startswith('keyword-'):
+            probs = [x.replace('schema text became code', f'the name `{payload}` reached the output as a keyword token (or changed the structure otherwise)') for x in probs]
         if probs:
             res['anomalies'].append({'position': pos, 'payload': pname, 'value': payload, 'problems': probs[:3], 'kind': 'injection',
                                      'schema': open(p, encoding='utf-8').read()[:2500]})
     if res['cases'] == 0:
         res['error'] = 'no case ran'
+    if res['cases'] and res['rejected_by_generator'] == res['cases']:
+        res['error'] = 'the generator rejected every case: the harness inputs are probably broken'
     return res
 
 
